@@ -3,6 +3,7 @@ package main
 // Symbolic execution of go/ssa functions into named proof obligations.
 
 import (
+	"go/constant"
 	"fmt"
 	"go/token"
 	"go/types"
@@ -30,6 +31,16 @@ type Obligation struct {
 	TimeMS  int64
 	Model   string
 	SMTSize int
+	Pre     *PreReplay // preimage obligation: how to replay a counterexample (two runs)
+}
+
+// PreReplay: the second input vector of a preimage obligation is read from the model under the
+// names pre!B!<param>; covers is reproduced when both runs give the same digest, excludes when
+// they give different digests.
+type PreReplay struct {
+	Kind string
+	Of   string
+	Cand []*Term // extra constraints for the candidate-counterexample search only
 }
 
 type Exec struct {
@@ -60,6 +71,7 @@ type Exec struct {
 	ghostCells   map[*Cell]*Cell
 	wireUnit     *ssa.Function
 	kernelMode   bool
+	encCells     map[*Cell]bool // Encoder cells with a ghost stream
 	wireDeps     map[string]bool
 	encLog       map[*Cell][]emission
 	ptrAliases   []ptrAlias
@@ -103,6 +115,9 @@ type Frame struct {
 	edgeOv      map[[2]int]edgeState
 	iterTag     string
 	lastUnknown string
+	curBlock    *ssa.BasicBlock
+	segs        map[*Loop]*segCtx
+	inheritSeg  *segCtx
 }
 
 var _ = 0
@@ -499,6 +514,9 @@ func (ex *Exec) globalPtr(g *ssa.Global) Val {
 	elem := g.Type().(*types.Pointer).Elem()
 	name := "global:" + g.Pkg.Pkg.Name() + "." + g.Name()
 	defer func() { recover() }()
+	if c := ex.P.specifierConst(g); c != nil {
+		return ValPtr{Root: c, Elem: elem}
+	}
 	return ValPtr{Root: Sym(name, SortOf(elem)), Elem: elem}
 }
 
@@ -880,6 +898,7 @@ func (fr *Frame) processBlock(b *ssa.BasicBlock, gs []*Term, ms []Mem, preds []*
 	fr.mem = mergeMem(gs, ms).clone()
 	fr.cur = bg
 	fr.guard[b] = bg
+	fr.curBlock = b
 	lp := fr.loopOf[b]
 	for _, in := range b.Instrs {
 		phi, ok := in.(*ssa.Phi)
@@ -1287,4 +1306,52 @@ func (ex *Exec) mayModifyValue(fn *ssa.Function, root ssa.Value, key string, sta
 	}
 	modSummary[key] = res
 	return res
+}
+
+// specifierConst: the value of a package-level variable that is assigned exactly once in the
+// whole program, in its package initialiser, from types.NewSpecifier("constant") -- i.e. a
+// 16-byte specifier that is never reassigned (checked over all stores of the SSA program).
+func (p *Program) specifierConst(g *ssa.Global) *Term {
+	if p.specConsts == nil {
+		p.specConsts = map[*ssa.Global]*Term{}
+		stores := map[*ssa.Global]int{}
+		val := map[*ssa.Global]string{}
+		okv := map[*ssa.Global]bool{}
+		for _, fn := range p.Funcs {
+			for _, b := range fn.Blocks {
+				for _, in := range b.Instrs {
+					st, ok := in.(*ssa.Store)
+					if !ok {
+						continue
+					}
+					gg, ok := st.Addr.(*ssa.Global)
+					if !ok {
+						continue
+					}
+					stores[gg]++
+					if fn.Name() != "init" {
+						continue
+					}
+					if call, ok := st.Val.(*ssa.Call); ok {
+						if cf, ok := call.Call.Value.(*ssa.Function); ok && cf.String() == typesPkg+".NewSpecifier" && len(call.Call.Args) == 1 {
+							if c, ok := call.Call.Args[0].(*ssa.Const); ok && c.Value != nil {
+								val[gg] = constant.StringVal(c.Value)
+								okv[gg] = true
+							}
+						}
+					}
+				}
+			}
+		}
+		for gg, n := range stores {
+			if n == 1 && okv[gg] && len(val[gg]) <= 16 {
+				arr := ConstArray(ArraySort(SInt, SInt), IntC(0))
+				for i := 0; i < len(val[gg]); i++ {
+					arr = Store(arr, IntC(int64(i)), IntC(int64(val[gg][i])))
+				}
+				p.specConsts[gg] = arr
+			}
+		}
+	}
+	return p.specConsts[g]
 }
